@@ -66,6 +66,21 @@ def gen_spec(rng):
     picks = rng.sample(tables['tracers'], rng.randrange(1, min(3, len(tables['tracers'])) + 1))
     blocks = [{'cat': t['cat'], 'tid': t['tid'], 'nl': rng.randrange(1, 4),
                'unit': rng.choice(['v/v', 'hPa', 'K', 'unitless'])} for t in picks]
+    if rng.random() < 0.25:
+        # a diagnostic whose tracer has no line in tracerinfo.dat for
+        # (category offset + number): the reader falls back to the bare number
+        # (name of that tracer if it has a line, else the number; never scaled)
+        offs = {c['category']: c['offset'] for c in tables['cats']}
+        have = {t['id'] for t in tables['tracers']}
+        for cname, off in offs.items():
+            if off == 0:
+                continue
+            for tid in (1, 2, 99):
+                if off + tid not in have:
+                    blocks.append({'cat': cname, 'tid': tid, 'nl': rng.randrange(1, 3),
+                                   'unit': rng.choice(['unitless', 'kg']), 'unlisted': True})
+                    break
+            break
     if rng.random() < 0.4:
         # diagnostics saved on different windows / from different levels up
         for b in blocks[1:]:
@@ -110,9 +125,16 @@ def write_tables(tables, d):
 def expected(spec, doc):
     """{varname: {'raw': (nt, nl, nj, ni), 'scale', 'unit', 'cat', 'tid'}}"""
     tab = {(t['cat'], t['tid']): t for t in spec['tables']['tracers']}
+    byid = {t['id']: t for t in spec['tables']['tracers']}
     out = {}
     for bi, b in enumerate(spec['blocks']):
-        t = tab[(b['cat'], b['tid'])]
+        if b.get('unlisted'):
+            # no row for offset + number: named after the bare number's row if
+            # there is one, else by the number; scale 1, unit of the data block
+            bare = byid.get(b['tid'])
+            t = {'name': bare['name'] if bare else str(b['tid']), 'scale': 1.0, 'unit': b['unit']}
+        else:
+            t = tab[(b['cat'], b['tid'])]
         raw = np.stack([doc['times'][ti][bi]['data'] for ti in range(spec['nt'])])
         out['%s_%s' % (b['cat'], t['name'])] = {
             'raw': raw.astype('f4'), 'scale': t['scale'], 'unit': t['unit'],
@@ -125,7 +147,10 @@ def canon(f):
     for k in list(f.variables.keys()):
         v = f.variables[k]
         if hasattr(v, 'tracerid'):
-            out[k] = {'data': np.array(v[...], dtype='f8'), 'unit': str(getattr(v, 'units', '')).strip(),
+            u = getattr(v, 'units', '')
+            if isinstance(u, bytes):        # a tracer without a table row keeps the header's bytes
+                u = u.decode('ascii', 'replace')
+            out[k] = {'data': np.array(v[...], dtype='f8'), 'unit': str(u).strip(),
                       'cat': str(getattr(v, 'category', '')).strip(), 'tid': int(v.tracerid),
                       'scale': float(getattr(v, 'scale', 1.0))}
     hdr = {'modelname': getattr(f, 'modelname', b''), 'modelres': list(np.asarray(f.modelres, 'f8')),
@@ -191,7 +216,7 @@ def gen_op(rng, st):
                     'out': 'out%d' % st.outn, 'sched': rng.choice(SCHEDULES),
                     # the file handed to the writer: the reader's object, or an
                     # in-memory file derived from it (copy / identity slice)
-                    'via': rng.choice(['reader', 'reader', 'copy', 'slice'])})
+                    'via': rng.choice(['reader', 'reader', 'copy', 'slice', 'copy64'])})
         if rng.random() < 0.3:
             ops.append({'op': 'collect'})
     st.queue = ops
@@ -258,7 +283,7 @@ def _outdir(st, op, f):
     d = st.w.path(op['out'])
     os.makedirs(d, exist_ok=True)
     kind = op['outdir']
-    if op.get('via') in ('copy', 'slice') and kind == 'fresh':
+    if op.get('via') in ('copy', 'slice', 'copy64') and kind == 'fresh':
         # an in-memory file carries no handle on its tables: the user supplies
         # them next to the output (the format's side-car convention)
         kind = 'same-tables'
@@ -412,12 +437,22 @@ def apply(st, op):
         st.stats['write_reads'] += 1
         try:
             g = _open(f['path'])
-            if op.get('via') == 'copy':
+            if op.get('via') == 'copy64':
+                # an in-memory file whose tracer arrays are float64 (computed data)
+                from PseudoNetCDF.core._variables import PseudoNetCDFVariable
+                g = g.copy()
+                for k in list(g.variables.keys()):
+                    v = g.variables[k]
+                    if hasattr(v, 'tracerid'):
+                        at = {a: getattr(v, a) for a in v.ncattrs()}
+                        g.variables[k] = PseudoNetCDFVariable(
+                            g, k, 'd', v.dimensions, values=np.array(v[...], dtype='d'), **at)
+            elif op.get('via') == 'copy':
                 g = g.copy()
             elif op.get('via') == 'slice':
                 g = g.sliceDimensions(time=slice(None))
             before = {k: np.array(v[...]) for k, v in g.variables.items()
-                      if hasattr(v, 'tracerid')} if op.get('via') in ('copy', 'slice') else None
+                      if hasattr(v, 'tracerid')} if op.get('via') in ('copy', 'slice', 'copy64') else None
             d = _outdir(st, op, f)
             out = os.path.join(d, 'wr.bpch')
             h = pncgen(g, out, format='bpch', verbose=0)
